@@ -3,7 +3,7 @@
 cd "$(dirname "$0")/.."
 for id in C01 C02 C03 C04 C05 C06 C07 C08 C09 C10 C11 C12 C13 C14 C15 C16 C17 C18 C19 C20; do
   lid=$(echo $id | tr 'A-Z' 'a-z')
-  for pair in "round1/1 1" "round1/2 2" "out/1 3" "out/2 4"; do
+  for pair in "round1/1 1" "round1/2 2" "round2/1 3" "round2/2 4" "out/1 5" "out/2 6"; do
     set -- $pair
     d=/tmp/seed/$id/$1
     [ -f $d/patch.diff ] || continue
